@@ -161,7 +161,7 @@ class C04(core.PropBase):
     id = "C04"
     component = "accept"
     extract_file = "ExtractAccept.v"
-    chars = _SRC_CHARS + "".join(chr(i) for i in range(128, 256)) + "٣　 ²"
+    chars = _SRC_CHARS + "".join(chr(i) for i in range(128, 256)) + "٣　 ²" + M.ODD_CHARS
     uses_table = True
     chunk_size = 60
     theorem_for_mismatch = "C04_outcomes (the acceptance model only ever accepts or rejects) and model = implementation outcome correspondence on junk documents"
